@@ -206,8 +206,43 @@ def list_step(ctx, prog, fn, direction):
         ctx.add('ENDSENT', fn, sig, 'ok', 'position %+d inside the sequence, EMPTY_REF exactly at the %s position' % (direction, 'last' if direction > 0 else 'first'), props, fn.line, {'table': table})
 
 
+def with_climb_helpers(prog, fn):
+    """the step function with private helpers that contain the upward loop spliced in (a climb extracted into a helper
+    is still the step's own climb); the function itself if there is nothing to splice"""
+    import copy, inline
+    from program import Fn
+    b = fn.body
+    if b.cfg.loops():
+        return fn
+    sites = []
+    for c in b.calls:
+        tgt = prog.resolve(c)
+        if tgt is None or tgt.is_closure or tgt.trait_item or tgt.self_adt != fn.self_adt or tgt.path in prog.accessors or not tgt.info.get('mir'):
+            continue
+        tb = tgt.body
+        loops = tb.cfg.loops()
+        if not loops:
+            continue
+        climbs = any(v.kind == 'load' and v.point and any(v.point[0] in body for body in loops.values()) and prog.node_field(v) and prog.node_field(v)[1] == ('parent',) for v in tb._vals)
+        if climbs and not inline.recursive(prog, tgt):
+            sites.append((c.point[0], tgt))
+    if not sites:
+        return fn
+    host = copy.deepcopy(fn.info['mir'])
+    for blk, tgt in sites:
+        t = host['blocks'][blk]['term']
+        if t['k'] == 'call':
+            inline.splice(host, blk, tgt.info['mir'], t['args'], t['dest'], t.get('target'), t['span'], tgt.name)
+    info = dict(fn.info)
+    info['mir'] = host
+    nf = Fn(prog, info)
+    return nf
+
+
 def tree_step(ctx, prog, fn, direction):
     """NEIGHBOUR + ENDSENT for the tree implementation"""
+    report_fn = fn
+    fn = with_climb_helpers(prog, fn)
     b = fn.body
     props = ['C09']
     X = 'right' if direction > 0 else 'left'
